@@ -108,20 +108,23 @@ func (p *parser) advance() bool {
 			// ignore
 
 		} else if char == '#' {
-			p.next()
+			// The comment's text starts after the character following '#'
+			// (normally a blank) and ends before the newline or at the end
+			// of the input; consume nothing but the comment and its newline.
+			if p.position < len(p.input) && p.input[p.position] != '\n' {
+				p.position++
+			}
 			start := p.position
-			for {
-				c := p.next()
-				if c < 0 || c == '\n' {
-					p.backup()
-					break
-				}
+			for p.position < len(p.input) && p.input[p.position] != '\n' {
+				p.position++
 			}
 			if p.lastComment.Len() > 0 {
 				p.lastComment.WriteByte('\n')
 			}
 			p.lastComment.WriteString(p.input[start:p.position])
-			p.next()
+			if p.position < len(p.input) {
+				p.position++
+			}
 
 		} else {
 			p.backup()
